@@ -234,3 +234,16 @@ Proof.
   { apply Rmult_lt_0_compat; [|lra]. apply Rdiv_lt_0_compat; nra. }
   lra.
 Qed.
+
+(* non-vacuity of the generic disjunct of rotate_between_partial: perpendicular vectors *)
+Example generic_case_inhabited :
+  nonzero (V 1 0 0) /\ nonzero (V 0 1 0) /\ minima <= 1 + vcos (vunit (V 1 0 0)) (vunit (V 0 1 0)).
+Proof.
+  assert (Ha : nonzero (V 1 0 0)) by (apply dot_pos_nonzero; unfold vdot; cbn; lra).
+  assert (Hb : nonzero (V 0 1 0)) by (apply dot_pos_nonzero; unfold vdot; cbn; lra).
+  repeat split; [exact Ha|exact Hb|].
+  rewrite (vcos_units _ _ Ha Hb). unfold vunit. rewrite vdot_scale_l, vdot_comm, vdot_scale_l.
+  replace (vdot (V 0 1 0) (V 1 0 0)) with 0 by (unfold vdot; cbn; ring).
+  assert (minima < 1) by (unfold minima; apply Rmult_lt_reg_r with (10 ^ 10); [lra|]; rewrite Rinv_l by lra; lra).
+  lra.
+Qed.
